@@ -118,6 +118,8 @@ def run(ctx, res):
             res.oracle_runs += 1
             for what in S.oracle_query(c["spec"], q):
                 viol(res, what, {"nums": [str(x) for x in c["spec"]["nums"]], "styles": c["spec"]["styles"],
+                                 "before_these_calls": c.get("prelude"), "pre_seed": c.get("pre_seed"),
+                                 "seed": c["spec"].get("seed"), "built_by_from_dict": bool(c["spec"].get("via_dict")),
                                  "query": C.jsonable(q)})
     # 2. round histories
     hcases = S.corr_histories(ctx, res, stats, ctx.n(420, 2400), ctx.n(80, 400))
